@@ -171,7 +171,8 @@ func runE2E(c *e2eCase, env *e2eEnv) string {
 	resps := make([]*e2eResp, len(c.reqs))
 	if neg == "h2" {
 		m, err := h2Exchange(conn, c.frames, c.reqs)
-		if err != nil && strings.Contains(err.Error(), "goaway:INADEQUATE_SECURITY") {
+		if err != nil && (strings.Contains(err.Error(), "goaway:INADEQUATE_SECURITY") || tlsInadequateForH2(conn)) {
+			// (the refusal may reach the client as a failed write — the server has closed already — before it reads the GOAWAY)
 			// the HTTP/2 server refuses TLS parameters RFC 7540 9.2 prohibits (TLS < 1.2, black-listed TLS 1.2 cipher
 			// suites) before any request: the connection is not one the server accepts
 			return "fail=h2-inadequate-security"
